@@ -223,6 +223,7 @@ struct ExtraCtx { const Harness* h; Agg* agg; std::vector<std::pair<RunSpec, Res
 static void extraCb(const RunSpec& s, const Result& r, void* c) { ExtraCtx* x = (ExtraCtx*)c; x->agg->add(r); if (r.violated && x->viol->size() < 50) x->viol->push_back({s, r}); }
 
 int main(int argc, char** argv, const Harness& h) {
+  signal(SIGPIPE, SIG_DFL);   /* the simulated program starts with the default dispositions whatever this process inherited (sim/net.cpp models SIGPIPE for send() without MSG_NOSIGNAL) */
   uint64_t seed = 1; long runs = 1000, offset = 0, stride = 1; double seconds = 1e9; int tier = 0; const char* replay = nullptr; const char* outdir = "replays"; const char* hashOut = nullptr;
   int shrinkBudget = 300; long one = -1; uint64_t runSeed = 0; bool haveRunSeed = false; bool verbose = false; int maxCand = 6; const char* countFiles = nullptr; int countArg = 0;
   for (int i = 1; i < argc; ++i) {
